@@ -4,6 +4,7 @@ Property theorems only (obligations of ./check C13).
 -/
 import LfsModel.Fsck
 import LfsModel.FsckScan
+import LfsModel.AttrFilter
 
 namespace C13
 open Fs
@@ -133,5 +134,26 @@ theorem scan_checks_every_blob_without_exclusion (t : List (Nat × Nat)) (p b : 
 theorem scan_full_statement_fails_d49 :
     FsScan.needed (fun p => p == 1) [(1, 7), (2, 7)] 7 ∧ 7 ∉ FsScan.scanned (fun p => p == 1) [(1, 7), (2, 7)] :=
   FsScan.d49_witness
+
+/-! ### which paths are expected to hold a pointer ("every tracked file there is a canonical pointer") -/
+
+/-- fsck never expects a pointer at a path Git does not track with LFS — for every list of attribute lines -/
+theorem expected_pointer_paths_are_tracked (ls : List AttrFilter.Line) (h : AttrFilter.fsckSays ls = true) :
+    AttrFilter.gitSays ls = true := AttrFilter.fsck_implies_git ls h
+
+/-- "every tracked file …", PARTIAL: shown when no matching line takes the path out of LFS again -/
+theorem tracked_paths_are_expected_partial (ls : List AttrFilter.Line)
+    (hoff : (ls.any fun l => l.hit && l.hasFilter && !l.lfs) = false) (h : AttrFilter.gitSays ls = true) :
+    AttrFilter.fsckSays ls = true := AttrFilter.git_implies_fsck_partial ls hoff h
+
+/-- what is missing from the full statement, with its witness (known finding D21): `-filter` then `filter=lfs` -/
+theorem tracked_paths_full_statement_fails_d21 :
+    AttrFilter.gitSays [⟨true, true, false⟩, ⟨true, true, true⟩] = true ∧
+    AttrFilter.fsckSays [⟨true, true, false⟩, ⟨true, true, true⟩] = false := AttrFilter.d21_witness
+
+/-- a line that only makes files lockable takes no path out of the pointer check, wherever it stands (D71) -/
+theorem lockable_only_line_is_irrelevant (pre post : List AttrFilter.Line) (l : AttrFilter.Line) (h : l.hasFilter = false) :
+    AttrFilter.fsckSays (pre ++ l :: post) = AttrFilter.fsckSays (pre ++ post) :=
+  (AttrFilter.filterless_line_irrelevant pre post l h).1
 
 end C13
